@@ -584,6 +584,36 @@ func (s *Sess) queryAcrossCacheOps(own int, f ecs.Filter, spec *FSpec, mode int)
 			return
 		}
 	}
+	if mode%5 == 3 {
+		// the registration the open query came from is itself unregistered (a program that is done with a filter may
+		// do so while its last query is still running), another filter is registered in between, and the query goes on
+		ro := s.regs[own]
+		orig := w.Cache().Unregister(&ro.cached)
+		if !sameFilter(orig, ro.orig) {
+			s.fail("cache.unregister", "Unregister returned %v, not the original filter %v", orig, ro.orig)
+		}
+		s.stale = append(s.stale, ro.cached)
+		tmp := w.Cache().Register(s.regs[other].orig)
+		i := k
+		for q.Next() {
+			if i >= len(base) || q.Entity() != base[i] {
+				s.fail("cache.openquery", "query through registered filter %s (slot %d), open at position %d while its own registration was dropped and another filter was registered: position %d is %v, it was opened on %v", spec, own, k, i, q.Entity(), short(base))
+				q.Close()
+				break
+			}
+			i++
+		}
+		if !s.Failed() && i != len(base) {
+			s.fail("cache.openquery", "query through registered filter %s (slot %d), open at position %d while its own registration was dropped: visited %d of %d entities", spec, own, k, i, len(base))
+		}
+		w.Cache().Unregister(&tmp)
+		c := w.Cache().Register(ro.orig)
+		s.regs[own] = &regEntry{spec: ro.spec, orig: ro.orig, cached: c}
+		if !s.Failed() {
+			s.Cov.N["queries_open_across_own_unregistration"]++
+		}
+		return
+	}
 	r := s.regs[other]
 	orig := w.Cache().Unregister(&r.cached)
 	if !sameFilter(orig, r.orig) {
